@@ -69,7 +69,9 @@ func c17Versions(r *RNG) []c17Version {
 			if r.Bool() {
 				fmt.Fprintf(&sb, "func %s() string {\n\treturn %q\n}\n\n", name, tag)
 			} else { // a body with locals and control flow, so that code really differs
-				fmt.Fprintf(&sb, "func %s() string {\n\ts := \"\"\n\tfor i := 0; i < %d; i++ {\n\t\ts += \"x\"\n\t}\n\tif len(s) == %d {\n\t\treturn %q\n\t}\n\treturn \"bad\"\n}\n\n", name, k+1, k+1, tag)
+				// the local may be named like a package-level variable (which exists in the table from the second load on)
+				lv := Pick(r, []string{"s", "Name", "Mode"})
+				fmt.Fprintf(&sb, "func %s() string {\n\t%s := \"\"\n\tfor i := 0; i < %d; i++ {\n\t\t%s += \"x\"\n\t}\n\tif len(%s) == %d {\n\t\treturn %q\n\t}\n\treturn \"bad\"\n}\n\n", name, lv, k+1, lv, lv, k+1, tag)
 			}
 		}
 		for i := 0; i < nm; i++ {
@@ -81,7 +83,8 @@ func c17Versions(r *RNG) []c17Version {
 			v.funcs[name] = tag
 			v.order = append(v.order, name)
 			if i%2 == 1 { // every other method takes a parameter
-				fmt.Fprintf(&sb, "func (t *T) M%d(k int) string {\n\tif k != 7 {\n\t\treturn \"bad argument\"\n\t}\n\treturn %q + t.Tag\n}\n\n", i, tag)
+				pn := Pick(r, []string{"k", "Limit", "Count"}) // a parameter may shadow a package-level variable too
+				fmt.Fprintf(&sb, "func (t *T) M%d(%s int) string {\n\tif %s != 7 {\n\t\treturn \"bad argument\"\n\t}\n\treturn %q + t.Tag\n}\n\n", i, pn, pn, tag)
 			} else {
 				fmt.Fprintf(&sb, "func (t *T) M%d() string {\n\treturn %q + t.Tag\n}\n\n", i, tag)
 			}
